@@ -377,6 +377,8 @@ def execute(sc, tape=None):
                         "detail": "closed %.3f s after the last client byte" % (c.closed_at - last)}
                 break
             why = proto.validate(cls, data, resp)
+            if not why and any(cid == c.id for cid, _ in run.tls_plaintext):
+                why = "clear text written beneath the TLS session (a child process was given the raw socket)"
             if why:
                 viol = {"oracle": "well-formed", "signature": dict(sig, oracle="well-formed", cls=cls,
                                                                   why=why.split(" (")[0][:60]),
